@@ -61,7 +61,16 @@ fn materials() -> Vec<Material> {
         let raw = k.public().as_bytes().to_vec();
         v.push(Material { name: format!("ec{}", i + 1), keytype: "ecdsa", scheme: "ecdsa-sha2-nistp256", scheme_enum: SignatureScheme::EcdsaP256Sha256, public_text: util::hex(&raw), spki_std: spki_p256_rfc5480(&raw), raw, pk8: keys::EC_PK8[i] });
     }
-    for (i, (n, scheme, se)) in [("rsa2048a", "rsassa-pss-sha256", SignatureScheme::RsaSsaPssSha256), ("rsa2048b", "rsassa-pss-sha256", SignatureScheme::RsaSsaPssSha256), ("rsa4096", "rsassa-pss-sha512", SignatureScheme::RsaSsaPssSha512)].into_iter().enumerate() {
+    for (i, (n, scheme, se)) in [
+        ("rsa2048a", "rsassa-pss-sha256", SignatureScheme::RsaSsaPssSha256),
+        ("rsa2048b", "rsassa-pss-sha256", SignatureScheme::RsaSsaPssSha256),
+        ("rsa4096", "rsassa-pss-sha512", SignatureScheme::RsaSsaPssSha512),
+        ("rsa2048-e800001", "rsassa-pss-sha256", SignatureScheme::RsaSsaPssSha256),
+        ("rsa2048-e80000001", "rsassa-pss-sha512", SignatureScheme::RsaSsaPssSha512),
+    ]
+    .into_iter()
+    .enumerate()
+    {
         let spki = keys::RSA_SPKI[i].to_vec();
         let raw = olpc::rsa_pkcs1_from_spki(&spki).unwrap();
         v.push(Material { name: n.to_string(), keytype: "rsa", scheme, scheme_enum: se, public_text: olpc::pem_public(&spki), raw, spki_std: spki, pk8: keys::RSA_PK8[i] });
@@ -322,7 +331,7 @@ pub fn run(tier: Tier) -> i32 {
     acc.sample(|| json!({"kind": "path", "key": "ed1", "paths": ["from_pkcs8", "from_spki(standard DER)", "from_pem_spki(standard PEM)", "from_ed25519(raw)", "json[...]"]}));
     check_tables(&mut acc, if tier.thorough() { 3 } else { 2 });
     c.acc = acc;
-    c.rule = "keys: 6 Ed25519, 3 ECDSA P-256, RSA 2048 x2 / 4096 x1; construction paths: PKCS#8 private key, standard DER and PEM SubjectPublicKeyInfo, raw bytes, 64-byte keypair, JSON with/without a (lying) keyid member and a private member, each with hash-algorithm list absent/default/one/reordered where the path takes one; for each: key id == reference preimage hash, equality across paths, JSON round trip, SPKI re-export identity and re-import. Key tables: every sequence of <= N appended (label, key) entries over labels {id(A), id(B), zeros} x keys {A, B}, parsed, then used end to end with links signed by B".into();
+    c.rule = "keys: 6 Ed25519, 3 ECDSA P-256, RSA 2048 x2 / 4096 x1 / 2048 with public exponents 0x800001 and 0x80000001; construction paths: PKCS#8 private key, standard DER and PEM SubjectPublicKeyInfo, raw bytes, 64-byte keypair, JSON with/without a (lying) keyid member and a private member, each with hash-algorithm list absent/default/one/reordered where the path takes one; for each: key id == reference preimage hash, equality across paths, JSON round trip, SPKI re-export identity and re-import. Key tables: every sequence of <= N appended (label, key) entries over labels {id(A), id(B), zeros} x keys {A, B}, parsed, then used end to end with links signed by B".into();
     c.bound_completed = format!("all keys x all paths; tables of <= {} entries", if tier.thorough() { 3 } else { 2 });
     c.assume("reference key-id preimage = securesystemslib (self-tested against Python-made key ids in C11)");
     c.assume("standard SPKI encodings built by template and byte-compared with OpenSSL-generated fixtures");
